@@ -1392,6 +1392,11 @@ def _norm_guard_fn(tree, fn, cls_name=None):
     return norm.renumber(norm.resolve_constants(fn, norm.module_constants(tree)))
 
 
+def _is_check_stmt(st) -> bool:
+    return isinstance(st, ast.Expr) and isinstance(st.value, ast.Call) \
+        and ast.unparse(st.value.func).split(".")[-1] == "check_fit_ranges"
+
+
 def _norm_fit_tree(tree):
     """a copy of fitting_datatree.py's module in which `__init__`, `fitness` and `_configure_weights` of the problem class
     are normalised (private helpers inlined, aliases substituted, negated tests swapped, module constants resolved)"""
@@ -1424,6 +1429,9 @@ def _norm_fit_tree(tree):
             fn = norm.swap_negated_ifs(fn)
             fn = norm.subst_aliases(fn, writes_of_callees(fn))
             fn = norm.resolve_constants(fn, consts)
+            if st.name == "__init__":
+                # a call of check_fit_ranges hoisted behind an if/else reads like the call duplicated in its branches
+                fn = norm.sink_into_branches(fn, _is_check_stmt)
             cls.body[i] = fn
     return ast.parse(ast.unparse(ast.fix_missing_locations(tree)))
 
